@@ -208,6 +208,21 @@ func runCheck(repo, prop, tier string, rest []string) int {
 			known[f.Obligation] = f
 		}
 	}
+	// A postcondition of a callee that is a recorded finding of ANOTHER property shows up here only because it
+	// is part of the callee's contract (the closure proves what callers assume). It is the same genuine defect,
+	// already listed: report it as known under its own properties, never as a new violation of this one.
+	for _, o := range res.obligs {
+		if _, mine := known[o.Name]; mine || hasTag(o.Tags, prop) {
+			continue
+		}
+		for _, f := range kf.Findings {
+			if f.Obligation == o.Name {
+				f.What = f.What + " (listed under " + strings.Join(f.Properties, ",") + ")"
+				known[o.Name] = f
+				knownNames[o.Name] = true
+			}
+		}
+	}
 	var retry []*Oblig
 	for _, o := range res.obligs {
 		if _, isKnown := known[o.Name]; isKnown {
